@@ -535,11 +535,13 @@ fn check_frames(ch: &mut Choices, cx: &mut Ctx) -> R {
     let enc = gimli::Encoding { format, version, address_size };
     let ncie = 1 + ch.below(2);
     let nfde = 1 + ch.below(3);
+    // (0x01/0x09: LEB128 pointers, whose length depends on the value: no relocation can describe them)
     let encs: Vec<gimli::DwEhPe> = if address_size == 8 {
-        vec![gimli::DW_EH_PE_absptr, gimli::DwEhPe(0x1b), gimli::DwEhPe(0x03), gimli::DwEhPe(0x0b), gimli::DwEhPe(0x04), gimli::DwEhPe(0x1c), gimli::DwEhPe(0x0c)]
+        vec![gimli::DW_EH_PE_absptr, gimli::DwEhPe(0x1b), gimli::DwEhPe(0x03), gimli::DwEhPe(0x0b), gimli::DwEhPe(0x04), gimli::DwEhPe(0x1c), gimli::DwEhPe(0x0c), gimli::DwEhPe(0x01), gimli::DwEhPe(0x09)]
     } else {
-        vec![gimli::DW_EH_PE_absptr, gimli::DwEhPe(0x1b), gimli::DwEhPe(0x03), gimli::DwEhPe(0x0b)]
+        vec![gimli::DW_EH_PE_absptr, gimli::DwEhPe(0x1b), gimli::DwEhPe(0x03), gimli::DwEhPe(0x0b), gimli::DwEhPe(0x01), gimli::DwEhPe(0x09)]
     };
+    let is_leb = |e: gimli::DwEhPe| matches!(e.0 & 0x0f, 0x01 | 0x09);
     #[derive(Clone, Debug)]
     struct Spec {
         fde_enc: gimli::DwEhPe,
@@ -600,6 +602,10 @@ fn check_frames(ch: &mut Choices, cx: &mut Ctx) -> R {
         (Ok(a), Ok(b)) => (a, b),
         (Err(_), Err(_)) => {
             cx.label("frames: refused both ways");
+            return Ok(());
+        }
+        (Ok(_), Err(_)) if fdes.iter().any(|f| { let c = &cies[f.0]; is_leb(c.fde_enc) || c.lsda_enc.map_or(false, is_leb) || c.personality.map_or(false, |p| is_leb(p.0)) }) => {
+            cx.label("frames: symbolic LEB128 pointer refused");
             return Ok(());
         }
         (a, b) => {
